@@ -31,6 +31,13 @@ type Cell struct {
 	// "" = after the request was written to the target, before = before the request is issued,
 	// during = while the request is being written to a back-pressured target connection.
 	When string `json:"when,omitempty"`
+	// PrimeBy: a client (L | T) that sends the very same packet (command type, CommandId, body) on its own
+	// connection immediately before the requester does (a retransmission seen from another connection).
+	PrimeBy string `json:"prime_by,omitempty"`
+	// FixedID: the CommandId is a small per-connection style counter ("cmd-<n%3>") that collides across connections.
+	FixedID bool `json:"fixed_command_id,omitempty"`
+	// CodeState: "" = T's code is unused, activated-by-L = L activated it with the same listen_address the cell sends.
+	CodeState string `json:"code_state,omitempty"`
 	// MState: state the victim's mappings (L->T) are put into before the command: "" = active,
 	// revoked | expired | inactive (the record exists but IsValid() is false).
 	MState string `json:"mapping_state,omitempty"`
@@ -68,6 +75,10 @@ func extras(claim string, withTarget bool) string {
 // pick the mapping / code / domain / client the body names
 func (w *world) mappingFor(c *Cell, rid int64, socks bool) string {
 	switch c.Target {
+	case "zero-listen":
+		return w.m0.ID
+	case "zero-target":
+		return w.mt0.ID
 	case "missing":
 		return "pm_does_not_exist"
 	case "own":
@@ -96,6 +107,8 @@ func (w *world) mappingFor(c *Cell, rid int64, socks bool) string {
 	return w.m.ID
 }
 
+func activationListenAddr(c *Cell) string { return fmt.Sprintf("127.0.0.1:%d", 20000+c.N%20000) }
+
 func jstr(s string) string { b, _ := json.Marshal(s); return string(b) }
 
 var specs = []spec{
@@ -112,7 +125,7 @@ var specs = []spec{
 			if c.Target == "missing" {
 				code = "zzz-zzz-zzz"
 			}
-			return fmt.Sprintf(`{"code":%s,"listen_address":"127.0.0.1:%d"%s}`, jstr(code), 20000+c.N%20000, extras(w.claimed(c, rid), true))
+			return fmt.Sprintf(`{"code":%s,"listen_address":%s%s}`, jstr(code), jstr(activationListenAddr(c)), extras(w.claimed(c, rid), true))
 		}},
 	{Name: "MappingList", Type: packet.MappingList, Object: "mapping",
 		Body: func(w *world, c *Cell, rid int64, m *meta) string { return `{"direction":""` + extras(w.claimed(c, rid), true) + `}` }},
@@ -307,6 +320,16 @@ func (w *world) step(c *Cell) (res stepResult) {
 			return
 		}
 	}
+	if c.CodeState == "activated-by-L" {
+		if err := w.activateCodeAs("L", activationListenAddr(c)); err != nil {
+			res.f = &fail{"C11/harness/setup-failed", err.Error()}
+			return
+		}
+		if rq, err = w.requester(c.Identity); err != nil {
+			res.f = &fail{"C11/harness/setup-failed", err.Error()}
+			return
+		}
+	}
 	if sp.Resp {
 		return w.stepResponse(sp, c, rq, rid)
 	}
@@ -318,6 +341,9 @@ func (w *world) step(c *Cell) (res stepResult) {
 		token = "client-" + claim
 	}
 	cmdID := nextID("c11")
+	if c.FixedID {
+		cmdID = fmt.Sprintf("cmd-%d", c.N%3)
+	}
 	pt := packet.JsonCommand
 	if c.AsResp {
 		pt = packet.CommandResp
@@ -325,6 +351,24 @@ func (w *world) step(c *Cell) (res stepResult) {
 	pkt := &packet.TransferPacket{PacketType: pt, CommandPacket: &packet.CommandPacket{CommandType: sp.Type, CommandId: cmdID,
 		Token: token, SenderId: claim, ReceiverId: claim, CommandBody: body}}
 	reqText := body
+	if c.PrimeBy != "" && c.PrimeBy != c.Identity {
+		// the same packet, first, from a client that is entitled to an answer
+		pc, err := w.requester(c.PrimeBy)
+		if err != nil {
+			res.f = &fail{"C11/harness/setup-failed", err.Error()}
+			return
+		}
+		cp := *pkt.CommandPacket
+		pout := w.exchange(pc, &packet.TransferPacket{PacketType: pt, CommandPacket: &cp}, c.PrimeBy)
+		if pout.hung || pout.recvErr != "" {
+			res.f = &fail{"C11/harness/push-did-not-return-or-packet-unreadable", fmt.Sprintf("priming %+v", *c)}
+			return
+		}
+		if rq, err = w.requester(c.Identity); err != nil { // the primer may have been the one that closed connections
+			res.f = &fail{"C11/harness/setup-failed", err.Error()}
+			return
+		}
+	}
 	var extraDom []string
 	if m.fullDom != "" {
 		extraDom = append(extraDom, m.fullDom)
@@ -358,7 +402,21 @@ func (w *world) step(c *Cell) (res stepResult) {
 		res.f = &fail{"C11/harness/snapshot-failed", err.Error()}
 		return
 	}
-	return w.judge(sp, c, rid, &m, before, after, out, reqText)
+	res = w.judge(sp, c, rid, &m, before, after, out, reqText)
+	if res.f != nil && !strings.Contains(res.f.key, "/harness/") && !strings.Contains(res.f.key, "client-0") {
+		// the circumstance that makes the case special is part of the root-cause key (only where it can matter)
+		isRead := strings.Contains(res.f.key, "/read-") || strings.Contains(res.f.key, "/success-reported")
+		codeOp := sp.Type == packet.ConnectionCodeActivate || sp.Type == packet.ConnectionCodeList || sp.Type == packet.MappingList || sp.Type == packet.MappingGet
+		switch {
+		case c.PrimeBy != "" && c.PrimeBy != c.Identity && isRead && !sp.Special:
+			res.f.key += "/same-command-id-and-body-sent-just-before-by-entitled-client"
+		case c.CodeState != "" && codeOp:
+			res.f.key += "/code-already-activated-by-another-client"
+		case strings.HasPrefix(c.Target, "zero-") && m.mappingID != "":
+			res.f.key += "/mapping-with-client-0-as-" + strings.TrimPrefix(c.Target, "zero-") + "-side"
+		}
+	}
+	return res
 }
 
 func replyText(out *outcome) string {
@@ -605,6 +663,14 @@ func (w *world) judge(sp *spec, c *Cell, rid int64, m *meta, before, after snaps
 				return bad("packet-delivered-to-client-that-is-not-the-mappings-target",
 					fmt.Sprintf("listen client %s(id %d) of mapping %s (target %d) sent in-body target_client_id=%q and the request was delivered to %s(id %d): %s",
 						c.Identity, rid, m.mappingID, o.Parties[1], c.BodyTarget, n, recv, pktString(out.others[n][0])))
+			}
+		}
+		if !ok && !authed {
+			if o, has := before["mapping:"+m.mappingID]; has && sp.Type == packet.SOCKS5TunnelRequestCmd && o.Parties[0] == 0 {
+				// root cause of its own: "client 0" on the mapping equals the id of a connection that never authenticated
+				return bad("packet-delivered-to-other-client/mapping-listen-client-0-equals-identity-of-unauthenticated-connection",
+					fmt.Sprintf("unauthenticated requester %s named mapping %s (listen client 0, target %d); the tunnel-open request (with the mapping's secret key) was delivered to %s: %s",
+						c.Identity, m.mappingID, o.Parties[1], n, pktString(out.others[n][0])))
 			}
 		}
 		if !ok {
